@@ -67,7 +67,7 @@ def gen_cases(tier, seed):
         r_np = gen.rng_for("C18np", seed, i)
         if r_np.random() < 0.15 and max([x for x in base["flow"].values() if x is not None] or [0]) <= 200:
             # the caller's graph carries numpy scalars (built from an array): they are the caller's objects too - same values AND same types afterwards
-            c["spec"]["np_type"] = r_np.choice(["int64", "uint8", "int32", "uint16"])
+            c["spec"]["np_type"] = r_np.choice(["int64", "uint8", "int32", "uint16", "array0d", "array0d"])
         if (rng.random() < 0.4 or "external_safe_paths" in oo_) and base["planted"]:
             c["cons"] = gen.jl(I.constraints_from_planted(rng, base, n=1))
         elems = base["nodes"] if node else base["edges"]
@@ -88,12 +88,22 @@ def gen_cases(tier, seed):
         cases.append({"cyc": cyc_, "spec": I.spec_of(base), "steps": ["MinErrorFlow", rng.choice(["MinErrorFlow", "kMinPathErrorCycles" if cyc_ else "kMinPathError"]), "MinErrorFlow"], "planted": len(base["planted"]),
                       "oo": {}, "dflt": False, "group": "t1", "ignore": [], "cons": [], "scale": [], "superset": None, "share_ignore": False, "node": False, "probe_dict": False,
                       "pending": False, "eps": rng.choice([0.1, 0.25, 1.0])})
+    for i in range(4 if tier == "quick" else 40):
+        # flow values given as 0-dimensional numpy arrays (mutable scalars in disguise) to the classes that run the greedy decomposition
+        rng = gen.rng_for("C18a0", seed, i)
+        base = I.dag_edge_base(rng, wt="int", max_edges=8, exact=True)
+        sp_ = I.spec_of(base); sp_["np_type"] = "array0d"
+        cases.append({"cyc": False, "spec": sp_, "steps": [rng.choice(["kFlowDecomp", "MinFlowDecomp"]), rng.choice(["MinFlowDecomp", "kFlowDecomp", "kLeastAbsErrors"])], "planted": len(base["planted"]),
+                      "oo": {}, "dflt": False, "group": "t1", "ignore": [], "cons": [], "scale": [], "superset": None, "share_ignore": False, "node": False, "probe_dict": False,
+                      "pending": False, "eps": None})
     for i in range(30 if tier == "quick" else 300):
         # the SAME graph object (same id label, same size) with other flow values for the second model, or an equal-sized copy of it
         cases.append({"kind": "reflow", "rs": f"C18rf:{seed}:{i}"})
     for i in range(16 if tier == "quick" else 160):
         # the caller goes on using (and editing) its own argument objects after it has constructed the model
-        cases.append({"kind": "postedit", "rs": f"C18pe:{seed}:{i}"})
+        cases.append({"kind": "postedit", "rs": f"C18pe:{seed}:{i}", "force_plr": i % 3 == 2})
+    for i in range(12 if tier == "quick" else 150):
+        cases.append({"kind": "reflowcyc", "rs": f"C18rfc:{seed}:{i}"})
     for i in range(16 if tier == "quick" else 120):
         # the same search object solved again (or solved for the first time after get_lowerbound_k()) later than its time limit
         cases.append({"kind": "lateresolve", "cls": ["MinFlowDecompCycles", "MinFlowDecomp", "MinPathCover", "MinPathCoverCycles"][i % 4], "rs": f"C18late:{seed}:{i}", "lb_first": (i // 4) % 2 == 1})
@@ -376,10 +386,17 @@ def run_postedit(case):
     if not cyc and rng.random() < 0.5:
         sup = [w for _, w in base["planted"]][:3] + [rng.choice([1, 2])]
     k = max(1, len(base["planted"]))
-    def make(es_, sup_):
+    plr = None
+    if case.get("force_plr") and not cyc:
+        cls = "kMinPathError"; sup = None
+    if cls == "kMinPathError" and (case.get("force_plr") or gen.rng_for("C18plr", case["rs"]).random() < 0.6):
+        plr = ([[0, 3], [4, 60]], [1.0, 0.5])
+    def make(es_, sup_, plr_=None):
         kw = {"flow_attr": "flow", "weight_type": int, "k": k, "error_scaling": es_, "solver_options": {"threads": 1, "time_limit": 20}}
         if sup_ is not None:
             kw["solution_weights_superset"] = sup_
+        if plr_ is not None:
+            kw["path_length_ranges"] = plr_[0]; kw["path_length_factors"] = plr_[1]
         return M.safe_call(getattr(fp, cls), G, **kw)
     def report(m):
         M.safe_call(m.solve)
@@ -391,10 +408,11 @@ def run_postedit(case):
                 pass
             return ("unsolved", st_)
         sol = m.get_solution(); v = M.safe_call(m.is_valid_solution)
-        return ("solved", round(m.get_objective_value(), 6), [list(p_) for p_ in models.routes_of(sol)], list(sol["weights"]), v[1:] if v[0] == "ok" else v[:2])
+        return ("solved", (round(m.get_objective_value(), 6), tuple(sorted(sol.keys()))), [list(p_) for p_ in models.routes_of(sol)], list(sol["weights"]), v[1:] if v[0] == "ok" else v[:2])
     es_live = dict(es); sup_live = list(sup) if sup is not None else None
-    a = make(es_live, sup_live)
-    b = make(copy.deepcopy(es), copy.deepcopy(sup))
+    plr_live = copy.deepcopy(plr)
+    a = make(es_live, sup_live, plr_live)
+    b = make(copy.deepcopy(es), copy.deepcopy(sup), copy.deepcopy(plr))
     if a[0] != "ok" or b[0] != "ok":
         return {"viol": [], "obs": {"c18.postedit_ctor_failed": 1}, "nontrivial": False}
     # the caller's edits (between construction and solve)
@@ -404,11 +422,17 @@ def run_postedit(case):
     if sup_live is not None:
         for i_ in range(len(sup_live)):
             sup_live[i_] = 1
+    if plr_live is not None:
+        # (the caller re-uses its range / factor lists for something else)
+        plr_live[0][0][1] = 1; plr_live[1][1] = 0.25
+        if rng.random() < 0.5:
+            plr_live[0].pop(); plr_live[1].pop()
+        obs["c18.postedit_path_length_lists_edited"] += 1
     ra = report(a[1]); rb = report(b[1])
     obs["c18.postedit_histories"] += 1
     if "kTimeLimit" in (ra[-1], rb[-1]):
         return {"viol": [], "obs": dict(obs), "nontrivial": False}
-    desc = f"{cls} k={k} error_scaling={es} superset={sup} edges={[(u, v, d.get('flow')) for u, v, d in G.edges(data=True)]}"
+    desc = f"{cls} k={k} error_scaling={es} superset={sup} path_length={plr} edges={[(u, v, d.get('flow')) for u, v, d in G.edges(data=True)]}"
     if ra[:2] != rb[:2] or (ra[0] == "solved" and (ra[4] != rb[4] or sorted(map(str, zip(ra[2], ra[3]))) != sorted(map(str, zip(rb[2], rb[3]))) and ra[1] != rb[1])):
         viol.append({"sig": f"C18/result-depends-on-history/caller-edits-its-arguments-after-construction/{cls}", "msg": f"with the caller's later edits: {ra}; untouched arguments: {rb}; {desc}"[:1200]})
     return {"viol": viol, "obs": dict(obs), "nontrivial": True, "keys": [hashlib.sha1(desc.encode()).hexdigest()[:14]], "sample": {"postedit": cls}}
@@ -458,7 +482,56 @@ def run_lateresolve(case):
     return {"viol": viol, "obs": dict(obs), "nontrivial": True, "keys": [hashlib.sha1(desc.encode()).hexdigest()[:14]], "sample": {"lateresolve": desc[:300]}}
 
 
+def run_reflowcyc(case):
+    """MinFlowDecompCycles solved, the caller overwrites the flow values of its graph (a walk of weight 1 now goes round a cycle several times),
+    the SAME object is solved again: the answer must be the one of a fresh model on the graph as it is now."""
+    viol = []; obs = collections.Counter()
+    rng = gen.rng_for(case["rs"])
+    E = [("s", "a"), ("a", "b"), ("b", "a"), ("b", "t"), ("s", "c"), ("c", "t")]
+    if rng.random() < 0.5:
+        E += [("b", "d"), ("d", "b")]
+    r1 = rng.randint(0, 1); r2 = rng.randint(2, 4); w2 = rng.randint(2, 5)
+    def flows(rounds, wside, rounds_d=0):
+        f = {("s", "a"): 1, ("a", "b"): 1 + rounds, ("b", "a"): rounds, ("b", "t"): 1, ("s", "c"): wside, ("c", "t"): wside}
+        if ("b", "d") in E:
+            f[("b", "d")] = rounds_d; f[("d", "b")] = rounds_d
+        return f
+    f1 = flows(r1, 1, 0); f2 = flows(r2, w2, rng.randint(0, 3))
+    oo = rng.choice([{"use_min_gen_set_lowerbound": True}, {"use_min_gen_set_lowerbound": True}, {"use_min_gen_set_lowerbound": True, "optimize_with_guessed_weights": True}, {}])
+    def mk(f):
+        G = nx.DiGraph()
+        for e in E:
+            G.add_edge(*e, flow=f[e])
+        return G
+    kw = {"flow_attr": "flow", "weight_type": int, "optimization_options": dict(oo), "solver_options": {"threads": 1, "time_limit": 20}}
+    G = mk(f1)
+    r = M.safe_call(fp.MinFlowDecompCycles, G, **kw)
+    if r[0] != "ok":
+        return {"viol": [], "obs": {"c18.reflowcyc_ctor_failed": 1}, "nontrivial": False}
+    m = r[1]; M.safe_call(m.solve)
+    for e in E:
+        G.edges[e]["flow"] = f2[e]
+    def rep(mm):
+        import time as _t
+        t0 = _t.perf_counter(); s_ = M.safe_call(mm.solve); dt = _t.perf_counter() - t0
+        if s_[0] != "ok":
+            return ("solve-" + s_[1],)
+        if not mm.is_solved():
+            return ("time-limited",) if dt >= 10 else ("unsolved",)
+        return ("solved", len([w_ for w_ in mm.get_solution()["walks"] if w_]))
+    again = rep(m)
+    f_ = M.safe_call(fp.MinFlowDecompCycles, mk(f2), **dict(kw, optimization_options=dict(oo)))
+    fresh = rep(f_[1]) if f_[0] == "ok" else ("ctor-" + f_[1],)
+    obs["c18.reflow_same_model_resolves"] += 1; obs["c18.reflowcyc_pairs"] += 1
+    if "time-limited" not in (again[0], fresh[0]) and again != fresh:
+        viol.append({"sig": "C18/result-depends-on-history/re-solve-after-the-graph-was-updated/MinFlowDecompCycles",
+                     "msg": f"re-solve of the same model: {again}; fresh model on the updated graph: {fresh}; oo={oo} first flow {sorted(f1.items())} second flow {sorted(f2.items())}"[:1200]})
+    return {"viol": viol, "obs": dict(obs), "nontrivial": True, "keys": [hashlib.sha1(repr((sorted(f1.items()), sorted(f2.items()), sorted(oo))).encode()).hexdigest()[:14]], "sample": {"reflowcyc": str(oo)}}
+
+
 def run_case(case):
+    if case.get("kind") == "reflowcyc":
+        return run_reflowcyc(case)
     if case.get("kind") == "lateresolve":
         return run_lateresolve(case)
     if case.get("kind") == "postedit":
